@@ -42,6 +42,9 @@ def predicate(op, il, mres, tag):
             return ("Relic.Props.C12.load_prefix_rejected", mres, "a patch the specification rejects was accepted by Load")
         if il.startswith("crash") or il.startswith("panic"):
             return ("Relic.Props.C12.load_dump", mres, "Load crashed: " + il[:80])
+        if mres.startswith("ok") and il.startswith("err"):
+            # the specification parses this patch (load_dump: everything Dump writes, Load reads back)
+            return ("Relic.Props.C12.load_dump", mres, "a well-formed patch is refused by Load: " + il[:80])
         return None
     if "caller-buffer-changed" in il:
         return ("Relic.Props.C12.add_spec", mres, "PatchSet.Add wrote through a slice its caller handed over (the blobs of the other patches "
@@ -53,6 +56,9 @@ def predicate(op, il, mres, tag):
             return ("Relic.Props.C12.apply_exact", "no side effect besides the output path", flag)
     if il.startswith("panic") or il.startswith("crash"):
         return ("Relic.Props.C12.apply_exact", mres, "implementation crashed")
+    if tag.startswith("c=1") and mres.startswith("ok") and il.startswith("err") and f[3] == "dump" and "outoforder" in il:
+        return ("Relic.Props.C12.load_dump", mres, "a constructible patch set does not survive Dump -> Load (the production path "
+                "signers.ApplyBinPatch): " + il[:80])
     if tag.startswith("c=1"):
         ref = tag.split("ref=")[1].strip()
         parts = il.split(" ")
